@@ -69,6 +69,23 @@ async fn make_bob(seed: u8) -> anyhow::Result<Bob> {
     Ok(Bob { ep, docs, router, author, addr })
 }
 
+/// The same workload serves two properties: the session-slot invariants N1–N4 are C11's, "a
+/// declined request changes nothing in the store" is C10's. Each run judges only its own.
+fn viol11(ctx: &mut Ctx, case: u64, sig: &str, detail: serde_json::Value) {
+    if ctx.prop == "C11" {
+        ctx.violation(case, sig, detail)
+    } else {
+        ctx.count(&format!("seen_but_judged_by_C11[{sig}]"), 1)
+    }
+}
+fn viol10(ctx: &mut Ctx, case: u64, sig: &str, detail: serde_json::Value) {
+    if ctx.prop == "C10" {
+        ctx.violation(case, sig, detail)
+    } else {
+        ctx.count(&format!("seen_but_judged_by_C10[{sig}]"), 1)
+    }
+}
+
 enum Answer {
     Sync(ProtocolMessage),
     Abort(u8),
@@ -164,12 +181,27 @@ pub fn run(ctx: &mut Ctx) {
         };
         // both id orders between bob and alice occur across shards
         let alice_seed = if ctx.shard % 2 == 0 { seed + 1 } else { seed.wrapping_sub(1) };
-        let alice_ep = match Endpoint::builder(presets::Minimal).secret_key(SecretKey::from_bytes(&[alice_seed; 32])).relay_mode(RelayMode::Disabled).bind().await {
+        let alice_ep = match Endpoint::builder(presets::Minimal).secret_key(SecretKey::from_bytes(&[alice_seed; 32])).relay_mode(RelayMode::Disabled).alpns(vec![iroh_docs::ALPN.to_vec()]).bind().await {
             Ok(e) => e,
             Err(e) => {
                 ctx.harness_error(format!("cannot bind: {e:?}"));
                 return;
             }
+        };
+        // bob dials alice when a start_sync finds her among the peers stored for a document: she
+        // takes the connection and closes it at once, so that such a dial ends quickly
+        let dials_from_bob = Arc::new(std::sync::atomic::AtomicU64::new(0));
+        let acceptor = {
+            let ep = alice_ep.clone();
+            let n = dials_from_bob.clone();
+            tokio::spawn(async move {
+                while let Some(incoming) = ep.accept().await {
+                    if let Ok(conn) = incoming.await {
+                        n.fetch_add(1, std::sync::atomic::Ordering::SeqCst);
+                        conn.close(9u32.into(), b"not now");
+                    }
+                }
+            })
         };
         let alice_store = SyncHandle::spawn(Store::memory(), None, "alice".into());
         let alice_author = Author::from_bytes(&[9u8; 32]);
@@ -185,6 +217,8 @@ pub fn run(ctx: &mut Ctx) {
                 break;
             }
         }
+        ctx.count("dials_from_bob_taken_and_closed", dials_from_bob.load(std::sync::atomic::Ordering::SeqCst));
+        acceptor.abort();
         alice_ep.close().await;
         let _ = alice_store.shutdown().await;
         let _ = bob.router.shutdown().await;
@@ -286,6 +320,10 @@ async fn one(ctx: &mut Ctx, case: u64, rng: &mut Rng, bob: &Bob, alice_ep: &Endp
             }
         })
     };
+    // a second document that bob holds but does not sync, and one he has never heard of
+    let idle_secret = NamespaceSecret::from_bytes(&rng.fill32());
+    let idle_doc = bob.docs.api().import_namespace(Capability::Write(idle_secret.clone())).await.ok();
+    let unknown_ns = NamespaceSecret::from_bytes(&rng.fill32()).id();
     if let Err(e) = doc.start_sync(vec![]).await {
         ctx.harness_error(format!("start_sync: {e:?}"));
         return;
@@ -300,6 +338,8 @@ async fn one(ctx: &mut Ctx, case: u64, rng: &mut Rng, bob: &Bob, alice_ep: &Endp
 
     let mut sessions: Vec<Sess> = vec![];
     let mut accepted_total = 0usize;
+    let mut bob_may_dial = false;
+    let mut declined_not_found_idle = 0usize;
     let mut ambiguous = 0usize; // requests whose answer could not be read: allowed or not is unknown
     let mut declined_while_held = 0usize;
     let mut dropped_after_decline = 0usize;
@@ -334,7 +374,7 @@ async fn one(ctx: &mut Ctx, case: u64, rng: &mut Rng, bob: &Bob, alice_ep: &Endp
                             match step(&mut sessions[h], alice_store, ns, bob_id).await {
                                 Ok(still) => {
                                     trace.push(format!("session {first}: bob answered the next message ({})", if still { "session goes on" } else { "session complete" }));
-                                    ctx.violation(case, "second-session-accepted-while-first-in-progress", json!({"first": first, "second": s.id, "trace": trace}));
+                                    viol11(ctx, case, "second-session-accepted-while-first-in-progress", json!({"first": first, "second": s.id, "trace": trace}));
                                     violated = true;
                                     sessions.push(s);
                                     break 'hist;
@@ -357,7 +397,7 @@ async fn one(ctx: &mut Ctx, case: u64, rng: &mut Rng, bob: &Bob, alice_ep: &Endp
                             ctx.count("requests_declined_while_a_session_is_held", 1);
                         }
                         if r != 1 {
-                            ctx.violation(case, "syncing-document-declined-with-other-reason", json!({"reason": abort_name(r), "trace": trace}));
+                            viol11(ctx, case, "syncing-document-declined-with-other-reason", json!({"reason": abort_name(r), "trace": trace}));
                             violated = true;
                             break 'hist;
                         }
@@ -407,7 +447,7 @@ async fn one(ctx: &mut Ctx, case: u64, rng: &mut Rng, bob: &Bob, alice_ep: &Endp
                             match step(&mut sessions[h], alice_store, ns, bob_id).await {
                                 Ok(still) => {
                                     trace.push(format!("session {first}: bob answered the next message ({})", if still { "session goes on" } else { "session complete" }));
-                                    ctx.violation(case, "second-session-accepted-while-first-in-progress", json!({"first": first, "second": s.id, "trace": trace}));
+                                    viol11(ctx, case, "second-session-accepted-while-first-in-progress", json!({"first": first, "second": s.id, "trace": trace}));
                                     violated = true;
                                     sessions.push(s);
                                     break 'hist;
@@ -432,6 +472,56 @@ async fn one(ctx: &mut Ctx, case: u64, rng: &mut Rng, bob: &Bob, alice_ep: &Endp
                     }
                     Answer::Timeout => {
                         ctx.harness_error("no answer to a request within 20 s");
+                        break 'hist;
+                    }
+                }
+            }
+            8 => {
+                // ---- a request for a document that is not being synced: declined as not found,
+                // whatever else is going on with this peer
+                let (which, other) = if rng.chance(1, 2) { ("held but not synced", idle_secret.id()) } else { ("unknown", unknown_ns) };
+                let r: anyhow::Result<Answer> = async {
+                    let conn = tokio::time::timeout(Duration::from_secs(20), alice_ep.connect(bob.addr.clone(), iroh_docs::ALPN)).await??;
+                    let (mut send, mut recv) = conn.open_bi().await?;
+                    let zero = vec![0u8; 64];
+                    let fp = crate::wire::RawMessage { parts: vec![crate::wire::RawPart::Fingerprint { x: zero.clone(), y: zero, fp: [7; 32] }] }.to_bytes();
+                    send.write_all(&frame(&msg_init(other.as_bytes(), &fp))).await?;
+                    let a = read_answer(&mut recv).await;
+                    let _ = send.finish();
+                    conn.close(0u32.into(), b"");
+                    Ok(a)
+                }
+                .await;
+                ctx.count("requests_for_documents_not_being_synced", 1);
+                match r {
+                    Ok(Answer::Abort(0)) => {
+                        trace.push(format!("request for a document {which} -> declined NotFound"));
+                        if which == "held but not synced" {
+                            declined_not_found_idle += 1;
+                        }
+                    }
+                    Ok(Answer::Abort(r)) => {
+                        trace.push(format!("request for a document {which} -> declined {}", abort_name(r)));
+                        viol11(ctx, case, "document-not-being-synced-declined-with-other-reason", json!({"which": which, "reason": abort_name(r), "trace": trace}));
+                        violated = true;
+                        break 'hist;
+                    }
+                    Ok(Answer::Sync(_)) | Ok(Answer::Eof) => {
+                        trace.push(format!("request for a document {which} -> ACCEPTED"));
+                        viol11(ctx, case, "request-for-document-not-being-synced-accepted", json!({"which": which, "trace": trace}));
+                        violated = true;
+                        break 'hist;
+                    }
+                    Ok(Answer::Broken(e)) => {
+                        trace.push(format!("request for a document {which} -> {e}"));
+                        ctx.count("requests_broken", 1);
+                    }
+                    Ok(Answer::Timeout) => {
+                        ctx.harness_error("no answer to a request within 20 s");
+                        break 'hist;
+                    }
+                    Err(e) => {
+                        ctx.harness_error(format!("dial: {e:?}"));
                         break 'hist;
                     }
                 }
@@ -491,15 +581,24 @@ async fn one(ctx: &mut Ctx, case: u64, rng: &mut Rng, bob: &Bob, alice_ep: &Endp
                     trace.push(format!("declined request {id}: connection closed abruptly"));
                 }
             }
+            9 if rng.chance(1, 2) => {
+                // sharing the document or joining more peers: start_sync on a document already syncing
+                let r = doc.start_sync(vec![]).await;
+                // (bob then dials the peers stored for the document, alice among them after a
+                // successful session; while that dial of his own is under way the slot is his)
+                bob_may_dial = true;
+                trace.push(format!("bob: start_sync again -> {}", r.is_ok()));
+                ctx.count("start_sync_on_a_document_already_syncing", 1);
+            }
             _ => {
                 let ms = rng.range(1, 60) as u64;
                 tokio::time::sleep(Duration::from_millis(ms)).await;
                 trace.push(format!("pause {ms} ms"));
             }
         }
-        let n_events = events.lock().unwrap().len();
+        let n_events = events.lock().unwrap().iter().filter(|e| e.0).count();
         if n_events > accepted_total + ambiguous {
-            ctx.violation(case, "end-of-session-reported-for-a-session-never-allowed", json!({"events": n_events, "accepted": accepted_total, "trace": trace}));
+            viol11(ctx, case, "end-of-session-reported-for-a-session-never-allowed", json!({"events": n_events, "accepted": accepted_total, "trace": trace}));
             violated = true;
             break 'hist;
         }
@@ -524,9 +623,9 @@ async fn one(ctx: &mut Ctx, case: u64, rng: &mut Rng, bob: &Bob, alice_ep: &Endp
         let t = std::time::Instant::now();
         let mut reported = false;
         while t.elapsed() < Duration::from_secs(20) {
-            let n = events.lock().unwrap().len();
+            let n = events.lock().unwrap().iter().filter(|e| e.0).count();
             if n > accepted_total + ambiguous {
-                ctx.violation(case, "end-of-session-reported-for-a-session-never-allowed", json!({"events": n, "accepted": accepted_total, "trace": trace}));
+                viol11(ctx, case, "end-of-session-reported-for-a-session-never-allowed", json!({"events": n, "accepted": accepted_total, "trace": trace}));
                 violated = true;
                 break;
             }
@@ -541,7 +640,7 @@ async fn one(ctx: &mut Ctx, case: u64, rng: &mut Rng, bob: &Bob, alice_ep: &Endp
                 ctx.count("histories_with_an_unreadable_answer", 1);
             } else if !reported {
                 ctx.count("end_of_session_events_missing_after_20s", 1);
-                ctx.harness_error(format!("case {case}: bob reported {} ends for {accepted_total} accepted sessions within 20 s", events.lock().unwrap().len()));
+                ctx.harness_error(format!("case {case}: bob reported {} ends for {accepted_total} accepted sessions within 20 s", events.lock().unwrap().iter().filter(|e| e.0).count()));
             } else {
                 // the slot was freed before each event was sent: a request must be accepted now
                 next_id += 1;
@@ -572,9 +671,34 @@ async fn one(ctx: &mut Ctx, case: u64, rng: &mut Rng, bob: &Bob, alice_ep: &Endp
                                 }
                                 end_orderly(&mut s).await;
                             }
+                            Answer::Abort(r) if bob_may_dial => {
+                                // bob may have a dial of his own to alice in flight (she accepts no
+                                // connections, so it ends by failing): the decline is then legitimate and the
+                                // precondition of N3 does not hold. Bounded retry; giving up is inconclusive.
+                                trace.push(format!("probe request -> declined {} (bob may be dialling)", abort_name(r)));
+                                s.conn.close(0u32.into(), b"");
+                                ctx.count("probe_declines_while_bob_may_be_dialling", 1);
+                                let t = std::time::Instant::now();
+                                let mut accepted = false;
+                                while t.elapsed() < Duration::from_secs(30) && !accepted {
+                                    tokio::time::sleep(Duration::from_millis(100)).await;
+                                    next_id += 1;
+                                    match dial(alice_ep, alice_store, &bob.addr, ns, next_id).await {
+                                        Ok((mut s2, Answer::Sync(_))) | Ok((mut s2, Answer::Eof)) => {
+                                            accepted = true;
+                                            end_orderly(&mut s2).await;
+                                        }
+                                        Ok((s2, _)) => s2.conn.close(0u32.into(), b""),
+                                        Err(_) => {}
+                                    }
+                                }
+                                if !accepted {
+                                    ctx.harness_error(format!("case {case}: requests still declined 30 s after a start_sync that may have made bob dial"));
+                                }
+                            }
                             Answer::Abort(r) => {
                                 trace.push(format!("probe request -> declined {}", abort_name(r)));
-                                ctx.violation(case, "slot-still-busy-after-every-session-was-reported-finished", json!({"reason": abort_name(r), "accepted": accepted_total, "trace": trace}));
+                                viol11(ctx, case, "slot-still-busy-after-every-session-was-reported-finished", json!({"reason": abort_name(r), "accepted": accepted_total, "trace": trace}));
                                 s.conn.close(0u32.into(), b"");
                             }
                             Answer::Timeout => ctx.harness_error("no answer to the probe request within 20 s"),
@@ -598,10 +722,33 @@ async fn one(ctx: &mut Ctx, case: u64, rng: &mut Rng, bob: &Bob, alice_ep: &Endp
             s.conn.close(0u32.into(), b"");
         }
     }
+    // C10: requests for the document bob holds but does not sync were declined; a declined request
+    // changes nothing in the store — in particular it does not make the stranger a stored sync peer
+    if let Some(d) = &idle_doc {
+        if declined_not_found_idle > 0 {
+            // (give the live actor's bookkeeping of the declined connections a moment; observing
+            // nothing proves nothing, observing a change is decisive)
+            tokio::time::sleep(Duration::from_millis(20)).await;
+            ctx.count("store_checks_after_declined_requests", 1);
+            match d.get_sync_peers().await {
+                Ok(Some(p)) if !p.is_empty() => {
+                    viol10(ctx, case, "declined-request-changed-the-store:sync-peers", json!({"peers": p.len(), "declined_requests": declined_not_found_idle, "trace": trace}));
+                }
+                _ => {}
+            }
+            if let Ok(Some(_)) = d.get_one(iroh_docs::store::Query::all().include_empty()).await {
+                viol10(ctx, case, "declined-request-changed-the-store:entries", json!({"trace": trace}));
+            }
+        }
+    }
     drainer.abort();
     let _ = doc.leave().await;
     let _ = doc.close().await;
     let _ = bob.docs.api().drop_doc(ns).await;
+    if let Some(d) = idle_doc {
+        let _ = d.close().await;
+        let _ = bob.docs.api().drop_doc(idle_secret.id()).await;
+    }
     let _ = alice_store.close(ns).await;
     if declined_while_held > 0 {
         ctx.nontrivial(h64(format!("{trace:?}").as_bytes()));
